@@ -71,7 +71,9 @@ type ExecDouble struct {
 	// FinalGate, when non-nil, is received from before SetFinal proceeds. Like a remote execution
 	// layer, a gated call honours its context: it fails with ctx.Err() when the context ends first.
 	FinalGate chan struct{}
-	// AtGate, when set, is called when a call starts waiting at its gate ("exec" / "final").
+	// TxsGate, when non-nil, is received from before GetTxs proceeds (a mempool query that stalls); honours the context.
+	TxsGate chan struct{}
+	// AtGate, when set, is called when a call starts waiting at its gate ("exec" / "final" / "gettxs").
 	AtGate func(which string)
 }
 
@@ -117,6 +119,16 @@ func (e *ExecDouble) Inject(txs ...[]byte) {
 }
 
 func (e *ExecDouble) GetTxs(ctx context.Context) ([][]byte, error) {
+	if g := e.TxsGate; g != nil {
+		if e.AtGate != nil {
+			e.AtGate("gettxs")
+		}
+		select {
+		case <-g:
+		case <-ctx.Done():
+			return nil, ctx.Err()
+		}
+	}
 	e.mu.Lock()
 	out := make([][]byte, len(e.mempool))
 	copy(out, e.mempool)
